@@ -8,13 +8,16 @@ gzip / bzip2 / xz / ustar and the documented tarfile modes.
 
 Layers (each is a set of obligations generated from the real source on every run):
  (a) byte-level readers of sevenzip.py over an abstract byte stream with a ghost position: _read_bytes,
-     _read_uint8/32/64, _read_number (= 7z NUMBER, bit-vectors, all byte streams); BOUNDED: _read_boolean_vector,
-     _parse_pack_info, _parse_folder, _parse_unpack_info, _parse_substreams_info against the format grammar
-     (small shapes, every stream byte symbolic);
+     _read_uint8/32/64, _read_number (= 7z NUMBER, bit-vectors, all byte streams), _read_boolean_vector (any count) and
+     _parse_pack_info (any number of pack streams, all digest layouts) against the format grammar; BOUNDED (thorough
+     tier): _parse_folder, _parse_unpack_info, _parse_substreams_info (small shapes, every stream byte symbolic);
+     BOUNDED native scope (every run): reference writers x layouts x member sets on the real code, the stand-in for
+     _parse_header / _parse_main_header / _parse_streams_info / _parse_files_info, which are not under contract;
  (b) _build_file_list (any number of files / folders): file i gets its name, attributes and the size of its
      sub-stream; the r-th stream-bearing file goes to the folder k with cum(k) <= r < cum(k) + num_streams(k);
  (c) extractall / _decompress_folder: the bytes handed to the decoder chain of folder k are
-     archive[pack_pos + sum(pack_sizes[:k]) : + pack_sizes[k]], coders applied last-first  (F10 fails here);
+     archive[pack_pos + sum(pack_sizes[:k]) : + pack_sizes[k]], coders applied last-first (F10, fixed); entries with
+     emptyStream + emptyFile are zero-length FILES: not directories, not in the file->folder map, created empty (F25);
  (d) _extract_files_from_folder: member j of a folder is out(k)[off_j : off_j + size_j], off_j = sum of earlier sizes;
  (e) member loops of archive_extractor.py: ZIP / TAR / 7z selection in container order, one dispatch per selected
      member with the member's own bytes, name, base name and `archive!/member` path; _process_archive_entry calls
@@ -24,8 +27,8 @@ Loops over symbolic sequences carry *per-iteration ghost-event invariants*: the 
 iteration i states exactly which events (append / write / yield / map) the iteration produced and with which values;
 `member-loops-run-to-completion` rules out early exits.  The end-to-end statement is the composition of these layers
 (PY-LIST-ORDER for lists built by append); `decode` (lzma), zipfile / tarfile member reads, the file system and the
-member extractors are uninterpreted (Trust).  Recorded known findings: F25, F26, F27 (known_findings.json); F10 has a
-proposed fix (proposed_fixes/C10.diff) and fails on the unfixed tree with a natively replayed witness.
+member extractors are uninterpreted (Trust).  Recorded known findings: F25, F26, F27 (known_findings.json) with
+proposed fixes for F25 (proposed_fixes/C10_F25.diff) and F27 (C10_F27.diff); F10 is fixed in /repo.
 """
 import ast
 
@@ -152,6 +155,39 @@ z3.RecAddDefinition(NUML, [_s, _p], 1 + lead_ones(SB(_s, _p)))
 z3.RecAddDefinition(NUMV, [_s, _p], number_value(SB(_s, _p), [SB(_s, _p + 1 + i) for i in range(8)]))
 
 
+def mask_after(r):
+    """the bit mask after r (mod 8) bits of the current byte have been consumed: 0 when a new byte is due"""
+    acc = bv(0)
+    for k in range(7, 0, -1):
+        acc = z3.If(r == k, bv(0x80 >> k), acc)
+    return acc
+
+
+BITF = z3.RecFunction("bitvector_bit", Stream, I, I, B)     # bit i of the 7z BitVector stored at offset p (MSB first)
+_bi = z3.Int("i!bit")
+z3.RecAddDefinition(BITF, [_s, _p, _bi], z3.Or([z3.And(_bi % 8 == k, z3.Extract(7 - k, 7 - k, SB(_s, _p + _bi / 8)) == 1) for k in range(8)]))
+
+
+# Two spec functions defined by primitive recursion on the count.  They are declared uninterpreted and their defining
+# equations are INSTANTIATED where a proof needs them (at 0 and at the loop index): z3's automatic unfolding of recursive
+# definitions over a symbolic count made trivial VCs time out (measured: unknown after 8 s vs unsat in 0.01 s).
+NUMPOS = z3.Function("numbers_end_at", Stream, I, I, I)          # offset after i consecutive NUMBERs starting at q
+DCNT = z3.Function("digests_defined_before", Stream, I, B, I, I)  # number of defined entries among the first i of a Digests vector
+
+
+def numpos_def(s, q, i):
+    """defining equations of NUMPOS at 0 and at i (i >= 0): NUMPOS(0) = q, NUMPOS(i+1) = NUMPOS(i) + len(NUMBER at NUMPOS(i))"""
+    return z3.And(NUMPOS(s, q, z3.IntVal(0)) == q,
+                  z3.Implies(i >= 0, NUMPOS(s, q, i + 1) == NUMPOS(s, q, i) + NUML(s, NUMPOS(s, q, i))))
+
+
+def dcnt_def(s, p, ad, i):
+    """defining equations of DCNT at 0 and at i (i >= 0): DCNT(0) = 0, DCNT(i+1) = DCNT(i) + [entry i is defined]"""
+    return z3.And(DCNT(s, p, ad, z3.IntVal(0)) == 0,
+                  z3.Implies(i >= 0, DCNT(s, p, ad, i + 1) == DCNT(s, p, ad, i) + z3.If(z3.Or(ad, BITF(s, p, i)), 1, 0)))
+
+
+
 def number_python(data, p=0):
     """The same spec on python bytes (used by the known-answer lemmas and the replayer)."""
     b0 = data[p]
@@ -259,21 +295,9 @@ def byte_contracts():
         raises=[Raises(BAD, when=lambda c: pos0(c) + NUML(S(c), pos0(c)) > SLEN(S(c)), label="short stream")],
         note="7z NUMBER: leading 1-bits of the first byte = number of extra little-endian bytes; "
              "the 8-step loop is `for i in range(8)` (exact unrolling, no unwinding assumption needed)"))
-    # ---- _read_boolean_vector: BOUNDED in `count` (the result list has concrete length in this engine)
-    BV_COUNTS = list(range(0, 18))
-
-    def bv_count(c):
-        k = c.args["count"].const() if isinstance(c.args["count"], VInt) else None
-        if k is None:
-            k = c.ex.concretize(c.entry, c.args["count"]) if hasattr(c.ex, "concretize") else None
-        if k is None or k not in BV_COUNTS:
-            import os as _os
-            if _os.environ.get("C10_DEBUG"):
-                print("DEBUG count term:", c.args["count"].t.sexpr()[:300], "k=", k, "ghost", {g: v for g, v in c.entry.ghost.items() if str(g).startswith("bounded")})
-                for p_ in c.entry.pc:
-                    print("   pc:", p_.sexpr()[:260].replace("\n", " "))
-            raise ops.Unsupported("_read_boolean_vector: count outside the BOUNDED scope")
-        return k
+    # ---- _read_boolean_vector: any count (loop invariant over the bit index; the result list by PY-LIST-ORDER)
+    def bv_n(c):
+        return ops.int_term(c.args["count"])
 
     def bv_cd(c):
         v = c.args["check_defined"]
@@ -282,45 +306,93 @@ def byte_contracts():
             raise ops.Unsupported("_read_boolean_vector: check_defined not a literal")
         return k
 
-    def bitvector_spec(s, p, n):
-        """format: bit i of the vector is bit (7 - i mod 8) of byte p + i div 8"""
-        return [z3.Extract(7 - (i % 8), 7 - (i % 8), SB(s, z3.simplify(p + i // 8))) == 1 for i in range(n)]
-
     def bv_all(c):
         return z3.And(z3.BoolVal(bv_cd(c)), SB(S(c), pos0(c)) != bv(0))
 
     def bv_need(c):
         """bytes consumed"""
-        n = bv_count(c)
+        n = bv_n(c)
         if bv_cd(c):
-            return z3.If(bv_all(c), 1, 1 + (n + 7) // 8)
-        return z3.IntVal((n + 7) // 8)
+            return z3.If(bv_all(c), 1, 1 + (n + 7) / 8)
+        return (n + 7) / 8
 
     def bv_returns(c):
-        n = bv_count(c)
-        s, p = S(c), pos0(c)
+        n, s, p = bv_n(c), S(c), pos0(c)
+        k = None
+        if c.at_call_site:
+            k = c.args["count"].const() if isinstance(c.args["count"], VInt) else None
+            if k is None and hasattr(c.ex, "concretize") and getattr(c.ex.contract, "bounded", ""):
+                k = c.ex.concretize(c.entry, c.args["count"])
         if not bv_cd(c):
-            return c.ex.new_list(c.st, [VBool(t) for t in bitvector_spec(s, p, n)])
-        bits = bitvector_spec(s, p + 1, n)
-        return c.ex.new_list(c.st, [VBool(z3.Or(bv_all(c), t)) for t in bits])
+            elem, tag = (lambda j: VBool(BITF(s, p, j))), ("bitvector", p, z3.BoolVal(False))
+        else:
+            alld = bv_all(c)
+            elem, tag = (lambda j: VBool(z3.Or(alld, BITF(s, p + 1, j)))), ("bitvector", p + 1, alld)
+        if k is not None and 0 <= k <= 64:
+            return c.ex.new_list(c.st, [VBool(z3.simplify(elem(z3.IntVal(j)).t)) for j in range(k)])     # concrete count: a concrete list
+        return VSeq(n, elem, "bool", tag=tag)
 
     def bv_short(c):
         """raises only when the bytes the format needs are missing"""
-        n = bv_count(c)
+        n = bv_n(c)
         L, p = SLEN(S(c)), pos0(c)
         if bv_cd(c):
-            return z3.Or(p + 1 > L, z3.And(z3.Not(bv_all(c)), p + 1 + (n + 7) // 8 > L))
-        return z3.And(z3.BoolVal(n > 0), p + (n + 7) // 8 > L)
+            return z3.Or(p + 1 > L, z3.And(z3.Not(bv_all(c)), n > 0, p + 1 + (n + 7) / 8 > L))
+        return z3.And(n > 0, p + (n + 7) / 8 > L)
+
+    def bv_names(ex):
+        """roles of the loop's locals, read from the AST: the shifted mask, the current byte, the result list"""
+        fnode = ex.cur_fn_stack[-1]
+        loop = sorted([n for n in ast.walk(fnode) if isinstance(n, (ast.For, ast.While))], key=lambda n: (n.lineno, n.col_offset))[0]
+        masks = {n.target.id for n in ast.walk(loop) if isinstance(n, ast.AugAssign) and isinstance(n.op, ast.RShift) and isinstance(n.target, ast.Name)}
+        bytes_ = {n.targets[0].id for n in ast.walk(loop) if isinstance(n, ast.Assign) and len(n.targets) == 1 and isinstance(n.targets[0], ast.Name)
+                  and isinstance(n.value, ast.Call) and isinstance(n.value.func, ast.Attribute) and n.value.func.attr == "_read_uint8"}
+        if len(masks) != 1 or len(bytes_) != 1:
+            raise ops.Unsupported(f"_read_boolean_vector: loop roles not recognised (mask {sorted(masks)}, byte {sorted(bytes_)})")
+        return masks.pop(), bytes_.pop(), worklist_name(fnode, 0)
+
+    def bv_havoc(ex, st):
+        m, b, _r = bv_names(ex)
+        st.bind(m, VInt(z3.BitVec(fresh_name(m), 8)))      # both range over bytes (invariant below)
+        st.bind(b, VInt(z3.BitVec(fresh_name(b), 8)))
+        common.havoc_pos(ex, st, st.obj(st.lookup("self").ref).data["_stream"])
+
+    def bv_inv(lc):
+        m, b, res = bv_names(lc.ex)
+        i = lc.i
+        stream = lc.entry.obj(lc.entry.lookup("self").ref).data["_stream"]
+        s = stream.t
+        p0 = common.bytesio_pos(lc.entry, stream)
+        pos = common.bytesio_pos(lc.st, stream)
+        r, q = i % 8, i / 8
+        conj = [pos == p0 + (i + 7) / 8,
+                ops.eq_term(lc[m], VInt(mask_after(r))),
+                z3.Implies(r != 0, ops.eq_term(lc[b], VInt(SB(s, p0 + q)))),
+                z3.Or(i == 0, pos <= SLEN(s))]
+        if lc.extra.get("phase") == "preserve":
+            ref = lc.entry.lookup(res).ref
+            new = [v for (rf, v) in new_events(lc, "appends") if rf == ref]
+            ok = z3.BoolVal(False)
+            if len(new) == 1 and isinstance(new[0], VBool):
+                ok = new[0].t == BITF(s, p0, i - 1)
+            conj.append(ok)
+        if lc.extra.get("phase") == "exit":
+            # PY-LIST-ORDER: the result is the sequence of appended bits
+            lc.st.bind(res, VSeq(i, lambda j: VBool(BITF(s, p0, j)), "bool"))
+        return z3.And(conj)
 
     out.append(FnContract(
         target=f"{RD}._read_boolean_vector",
-        params=[("self", p_reader()), ("count", p_alts(*[p_const(k) for k in BV_COUNTS])), ("check_defined", p_alts(p_const(False), p_const(True)))],
-        requires=req_stream, frame=frame_stream, returns=bv_returns,
+        params=[("self", p_reader()), ("count", p_int(0)), ("check_defined", p_alts(p_const(False), p_const(True)))],
+        requires=lambda c: z3.And(req_stream(c), bv_n(c) >= 0), frame=frame_stream, returns=bv_returns,
         ensures=[("consumes-exactly-the-vector", lambda c: pos1(c) == pos0(c) + bv_need(c)),
-                 ("returns-only-if-enough-bytes", lambda c: z3.Not(bv_short(c)))],
+                 ("returns-only-if-enough-bytes", lambda c: z3.Not(bv_short(c))),
+                 ("bit-loop-runs-to-completion-unless-all-defined", internal(lambda c: z3.Or(
+                     bv_all(c), z3.BoolVal(bool(c.st.ghost.get(("done", "bit-i-is-bit-7-minus-i-mod-8-of-byte-i-div-8")))))))],
         raises=[Raises(BAD, when=bv_short, label="short stream")],
-        bounded=f"count in 0..{BV_COUNTS[-1]}, check_defined in (False, True), all stream bytes symbolic",
-        note="7z BitVector (optionally preceded by the allAreDefined byte): MSB-first bits"))
+        loops={0: LoopSpec(inv=done("bit-i-is-bit-7-minus-i-mod-8-of-byte-i-div-8", bv_inv), label="bit-i-is-bit-7-minus-i-mod-8-of-byte-i-div-8",
+                           havoc=(bv_havoc,))},
+        note="7z BitVector (optionally preceded by the allAreDefined byte): MSB-first bits; any count"))
     out.append(FnContract(
         target=f"{RD}._seek_back_one", params=[("self", p_reader())],
         requires=lambda c: z3.And(req_stream(c), pos0(c) >= 1), frame=frame_stream,
@@ -431,8 +503,54 @@ def p_list1(term):
     return Maker(mk, desc="[int]")
 
 
+class CompSpec(LoopSpec):
+    """invariant of a list comprehension `[E for _ in range(n)]` over a symbolic n (treated as the loop it is):
+    inv(lc) as for loops (phase 'preserve' sees the element in lc.extra['elt']); result(lc) = the list (PY-LIST-ORDER)"""
+
+    def __init__(self, inv=None, result=None, havoc=(), label=""):
+        super().__init__(inv=inv, havoc=havoc, label=label)
+        self.result = result
+
+
 class C10Executor(Executor):
     """Pack-local models of the abstract 7z header view (all ASSUMED views are listed in ASSUMED_MODELS)."""
+
+    def e_ListComp(self, n, st):
+        spec = None
+        if self.contract is not None and self.inline_depth == 0 and len(n.generators) == 1 and not n.generators[0].ifs:
+            fnode = self.cur_fn_stack[-1] if self.cur_fn_stack else None
+            comps = sorted([x for x in ast.walk(fnode) if isinstance(x, ast.ListComp)], key=lambda x: (x.lineno, x.col_offset)) if fnode else []
+            if n in comps:
+                spec = self.contract.loops.get(("comp", comps.index(n)))
+        if spec is None:
+            return super().e_ListComp(n, st)
+        from pyvc.symex import LoopCtx
+        from pyvc.state import Frame
+        g = n.generators[0]
+        out = []
+        for (s2, it) in self.ev(g.iter, st):
+            if self.concrete_items(s2, it) is not None or not isinstance(it, VSeq):
+                self.unsupported(n, "comprehension with an invariant over a concrete / unknown iterable")
+            N, elem = it.length, it.elem
+            entry = s2.fork()
+            self.add_vc("inv-init", spec.label, s2.pc, spec.inv(LoopCtx(self, s2, z3.IntVal(0), entry, it, {"phase": "init"})), loc=self.loc(n))
+            body = s2.fork()
+            for h in spec.havoc:
+                h(self, body)
+            i = z3.Int(fresh_name("i"))
+            after = body.fork()
+            after.pc = list(s2.pc)
+            body.assume(z3.And(i >= 0, i < N))
+            body.assume(self._b(spec.inv(LoopCtx(self, body, i, entry, it, {"phase": "assume"}))))
+            body.frames.append(Frame({}, len(body.frames) - 1, body.frame.fnode))
+            for s3 in self.assign(g.target, elem(i), body):
+                for (s4, v) in self.ev(n.elt, s3):
+                    s4.frames.pop()
+                    self.add_vc("inv-preserve", spec.label, s4.pc, spec.inv(LoopCtx(self, s4, i + 1, entry, it, {"phase": "preserve", "elt": v})), loc=self.loc(n))
+            after.assume(N >= 0)
+            after.assume(self._b(spec.inv(LoopCtx(self, after, N, entry, it, {"phase": "exit"}))))
+            out.append((after, spec.result(LoopCtx(self, after, N, entry, it, {"phase": "exit"}))))
+        return out
 
     def add_vc(self, kind, label, pc, goal, note="", loc=""):
         """conjunctive goals are split into one VC per conjunct (small queries; the conjunction went `unknown` under load)"""
@@ -442,6 +560,16 @@ class C10Executor(Executor):
                 self.add_vc(kind, label, pc, ch, note, loc)
             return
         super().add_vc(kind, label, pc, goal, note, loc)
+
+    def binop(self, st, op, a, b, node, inplace=False):
+        """`[x] * n` with a symbolic n: the immutable sequence of max(n, 0) copies of x"""
+        if op == "Mult" and isinstance(a, VRef) and isinstance(b, VInt) and b.const() is None:
+            items = self.concrete_items(st, a)
+            if items is not None and len(items) == 1 and isinstance(items[0], (VBool, VInt, VStr)):
+                n = ops.int_term(b)
+                x = items[0]
+                return [(st, VSeq(z3.If(n < 0, z3.IntVal(0), n), lambda i, x=x: x, x.kind))]
+        return super().binop(st, op, a, b, node, inplace)
 
     # -- `k in self._folder_to_files`, `self._folder_to_files[k]`
     def contains(self, st, container, item, node):
@@ -560,7 +688,26 @@ class C10Executor(Executor):
         self.raise_in(bad, VExc(t, {"site": "open"}))
         f = VExt("OutFile")
         st.ghost[("outfile", f.t.get_id())] = (args[0], args[1] if len(args) > 1 else kwargs.get("mode"))
+        st.ghost["opens"] = st.ghost.get("opens", ()) + ((args[0], args[1] if len(args) > 1 else kwargs.get("mode")),)
         return [(st, f)]
+
+
+def zero_length_worklist(repo=None):
+    """name of the reader attribute that `extractall` iterates (besides the folders) to create the ZERO-LENGTH files
+    (entries with emptyStream + emptyFile have no stream and belong to no folder), or None when extractall has no such loop"""
+    fnode = loader.module(SEVEN, repo).functions.get("SevenZipReader.extractall")
+    if fnode is None:
+        return None
+    loops = sorted([n for n in ast.walk(fnode) if isinstance(n, ast.For)], key=lambda n: (n.lineno, n.col_offset))
+    for lp in loops[1:]:
+        it = lp.iter
+        if isinstance(it, ast.Attribute) and isinstance(it.value, ast.Name) and it.value.id == "self":
+            return it.attr
+    return None
+
+
+ZIDX = z3.Function("zero_length_file_index", I, I)     # j-th zero-length file (index into the file list)
+NZ = z3.Int("num_zero_length_files")
 
 
 def done(label, inv):
@@ -776,10 +923,37 @@ def layout_contracts():
         note="offset of entry j = sum of the sizes of the earlier non-directory entries of the folder"))
 
     # ---- extractall: folder k is decoded from ITS OWN packed stream
+    ZL = zero_length_worklist()
+    ZL_LABEL = "each-zero-length-file-is-created-empty-at-its-own-path"
+
     def ea_self():
-        return p_obj("SevenZipReader", {"_folders": p_folders(), "_pack_sizes": p_intseq(PSZ, NPACK), "_pack_positions": p_list1(PACKPOS),
-                                        "_header_offset": p_const(32), "_folder_to_files": p_ext("FolderMap"), "_files": p_files(),
-                                        "_archive_file": p_ext("ArchiveFile")})
+        f = {"_folders": p_folders(), "_pack_sizes": p_intseq(PSZ, NPACK), "_pack_positions": p_list1(PACKPOS),
+             "_header_offset": p_const(32), "_folder_to_files": p_ext("FolderMap"), "_files": p_files(),
+             "_archive_file": p_ext("ArchiveFile")}
+        if ZL:
+            f[ZL] = Maker(lambda ex, st, name: [(NZ >= 0, VSeq(NZ, lambda j: VInt(ZIDX(j)), "int"))], desc="indices of the zero-length files")
+        return p_obj("SevenZipReader", f)
+
+    def zl_inv(lc):
+        conj = []
+        if lc.extra.get("phase") == "preserve":
+            fi = FINFO(ZIDX(lc.i - 1))
+            base = lc.entry.lookup("path").t
+            opens, writes = new_events(lc, "opens"), new_events(lc, "writes")
+            ok = z3.BoolVal(False)
+            if len(opens) == 1 and len(writes) == 0:
+                pth, mode = opens[0]
+                if isinstance(pth, VStr) and isinstance(mode, VStr) and mode.const() == "wb":
+                    ok = pth.t == SJ(base, FNAME(fi))
+            conj.append(ok)
+        return z3.And(conj + [z3.BoolVal(True)])
+
+    def ea_zero_length(c):
+        """F25: entries with emptyStream + emptyFile are FILES of length 0 and must be extracted (created empty)"""
+        if not ZL:
+            c.note = "extractall only writes the members of folders: an entry without a stream is never created"
+            return z3.BoolVal(False)
+        return z3.BoolVal(bool(c.st.ghost.get(("done", ZL_LABEL))))
 
     def ea_archive(c_or_lc):
         st = c_or_lc.entry
@@ -795,7 +969,8 @@ def layout_contracts():
             z3.ForAll([t], z3.Implies(z3.And(t >= 0, t < NFOLD), NCOD(FOLD(t)) >= 0), patterns=[FOLD(t)]),
             z3.ForAll([t, j], z3.Implies(z3.And(HASF(t), j >= 0, j < NF(t)), z3.And(FIDX(t, j) >= 0, FIDX(t, j) < NFILES)),
                       patterns=[FIDX(t, j)]),
-            z3.ForAll([t], z3.Implies(HASF(t), NF(t) >= 0), patterns=[NF(t)]))
+            z3.ForAll([t], z3.Implies(HASF(t), NF(t) >= 0), patterns=[NF(t)]),
+            *([z3.ForAll([t], z3.Implies(z3.And(t >= 0, t < NZ), z3.And(ZIDX(t) >= 0, ZIDX(t) < NFILES)), patterns=[ZIDX(t)])] if ZL else []))
 
     def ea_hyps(c):
         return PS(NPACK) >= 0          # lemma prefix-sum-nonneg (induction), instantiated at the number of pack streams
@@ -829,8 +1004,9 @@ def layout_contracts():
         requires=ea_requires, hyps=ea_hyps,
         raises=[Raises("ValueError", when=lambda c: z3.Length(c.args["path"].t) == 0, label="empty path"),
                 Raises(BAD, label="directory creation / decoder / member extraction failed")],
-        ensures=[completes("folder-k-decoded-from-its-own-pack-stream")],
-        loops={0: LoopSpec(inv=done("folder-k-decoded-from-its-own-pack-stream", ea_inv), label="folder-k-decoded-from-its-own-pack-stream")},
+        ensures=[completes("folder-k-decoded-from-its-own-pack-stream"), ("zero-length-files-are-created-empty", internal(ea_zero_length))],
+        loops=dict([(0, LoopSpec(inv=done("folder-k-decoded-from-its-own-pack-stream", ea_inv), label="folder-k-decoded-from-its-own-pack-stream"))] +
+                   ([(1, LoopSpec(inv=done(ZL_LABEL, zl_inv), label=ZL_LABEL))] if ZL else [])),
         note="for every folder k that has files: the bytes handed to _extract_files_from_folder are "
              "decode_chain(folder k, archive[pack_pos + sum(pack_sizes[:k]) : +pack_sizes[k]])"))
     return out
@@ -1477,13 +1653,30 @@ def build_contracts(reg):
         return [st]
     reg.ext_models[("setattr", "BuiltFile")] = set_built
 
+    ZLB = zero_length_worklist()
+
     def b_self():
         def empty(ex, st, name):
             return VRef(st.alloc(HeapObj("list", [], fresh=False), ex.refs))
-        return p_obj("SevenZipReader", {
+        extra = {ZLB: Maker(empty, desc="[] (as left by __init__)")} if ZLB else {}
+        return p_obj("SevenZipReader", dict(extra, **{
             "_file_sizes": p_intseq(FSZ, NFS), "_files": Maker(empty, desc="[] (as left by __init__)"),
             "_folders": Maker(lambda ex, st, name: [(MF >= 0, VSeq(MF, lambda k: VExt("Folder", FOLD(k)), "Folder"))], desc="list[Folder]"),
-            "_folder_to_files": p_ext("FolderMap")})
+            "_folder_to_files": p_ext("FolderMap")}))
+
+    ROLES = {
+        "self": b_self(), "num_files": p_int(0),
+        "empty_streams": Maker(lambda ex, st, name: VSeq(NFL, lambda i: VBool(ES(i)), "bool"), desc="list[bool] (kEmptyStream)"),
+        "empty_files": Maker(lambda ex, st, name: VSeq(NFL, lambda i: VBool(EF(i)), "bool"), desc="list[bool] (kEmptyFile, per file)"),
+        "names": Maker(lambda ex, st, name: VSeq(NFL, lambda i: VStr(NAME(i)), "str"), desc="list[str]"),
+        "attributes": Maker(lambda ex, st, name: VSeq(NFL, lambda i: VInt(ATTR(i)), "int"), desc="list[uint32]"),
+    }
+
+    def b_params():
+        """parameters by ROLE, read from the real signature (the header vectors the function is given; `empty_files` is optional)"""
+        fnode = loader.module(SEVEN).functions.get("SevenZipReader._build_file_list")
+        names = [a.arg for a in fnode.args.args] if fnode is not None else ["self", "num_files", "empty_streams", "names", "attributes"]
+        return [(n, ROLES.get(n, p_unk())) for n in names]
 
     def b_requires(c):
         t = z3.Int("t!req")
@@ -1492,7 +1685,8 @@ def build_contracts(reg):
             n == NFL, NFL >= 0, NFS >= 0,
             # writers' invariants (7-Zip, py7zr; format description): a directory entry has no stream; every folder
             # holds at least one sub-stream; SubStreamsInfo lists one size per stream-bearing file
-            z3.ForAll([t], z3.Implies(z3.And(t >= 0, t < NFL, (ATTR(t) & z3.BitVecVal(0x10, 32)) != 0), ES(t)), patterns=[ATTR(t)]),
+            z3.ForAll([t], z3.Implies(z3.And(t >= 0, t < NFL, (ATTR(t) & z3.BitVecVal(0x10, 32)) != 0), z3.And(ES(t), z3.Not(EF(t)))), patterns=[ATTR(t)]),
+            z3.ForAll([t], z3.Implies(z3.And(t >= 0, t < NFL, EF(t)), ES(t)), patterns=[EF(t)]),      # kEmptyFile is defined on emptyStream entries only
             z3.ForAll([t], z3.Implies(z3.And(t >= 0, t < MF), NSK(t) >= 1), patterns=[FOLD(t)]),
             RANK(NFL) <= NFS)
 
@@ -1528,6 +1722,16 @@ def build_contracts(reg):
                     # stream AND is not flagged kEmptyFile
                     lc.ex.add_vc("ensures", "empty-file-is-not-a-directory", lc.st.pc, isd.t == z3.And(ES(j), z3.Not(EF(j))),
                                  note="FileInfo.is_directory must be emptyStream AND NOT emptyFile (7zFormat.txt, FilesInfo)", loc="")
+                    if ZLB:
+                        # the worklist of zero-length files (what extractall creates): file j is put on it iff emptyStream AND emptyFile
+                        zr = lc.entry.obj(lc.entry.lookup("self").ref).data[ZLB]
+                        zl = [v for (r, v) in new_events(lc, "appends") if isinstance(zr, VRef) and r == zr.ref]
+                        zok = z3.BoolVal(False)
+                        if len(zl) == 0:
+                            zok = z3.Not(z3.And(ES(j), EF(j)))
+                        elif len(zl) == 1 and isinstance(zl[0], VInt):
+                            zok = z3.And(ES(j), EF(j), ops.int_term(zl[0]) == j)
+                        lc.ex.add_vc("ensures", "zero-length-files-are-queued-for-extraction", lc.st.pc, zok, loc="")
                     i_c = i.arg(0) if z3.is_add(i) else None
                     if i_c is None or not z3.is_const(i_c):
                         raise ops.Unsupported("loop index shape")
@@ -1575,10 +1779,7 @@ def build_contracts(reg):
 
     out.append(FnContract(
         target=f"{RD}._build_file_list",
-        params=[("self", b_self()), ("num_files", p_int(0)),
-                ("empty_streams", Maker(lambda ex, st, name: VSeq(NFL, lambda i: VBool(ES(i)), "bool"), desc="list[bool]")),
-                ("names", Maker(lambda ex, st, name: VSeq(NFL, lambda i: VStr(NAME(i)), "str"), desc="list[str]")),
-                ("attributes", Maker(lambda ex, st, name: VSeq(NFL, lambda i: VInt(ATTR(i)), "int"), desc="list[uint32]"))],
+        params=b_params(),
         requires=b_requires, raises=[], modifies=("self",),
         ensures=[completes("file-i-gets-its-name-attributes-and-the-size-of-its-sub-stream",
                            "file-with-r-th-stream-goes-to-the-folder-k-with-cum(k)<=r<cum(k+1)")],
@@ -1628,100 +1829,157 @@ def digests_spec(s, q, n):
     return out
 
 
-def spec_pack_info(s, p, P):
-    """PackInfo ::= 0x06 packPos:NUMBER numPackStreams:NUMBER [0x09 size:NUMBER * n] [0x0A Digests(n)] 0x00
-    -> [(cond, ('none', p) | ('ok', packPos, [sizes], end) | ('bad', end))]   (7zFormat.txt)"""
+def spec_pack_info(s, p):
+    """PackInfo ::= 0x06 packPos:NUMBER numPackStreams:NUMBER [0x09 size:NUMBER * n] [0x0A Digests(n)] 0x00   (7zFormat.txt)
+    for ANY n -> [(cond, ('none', p) | ('ok', packPos, n, size_at(j) | None, end) | ('bad', end))]
+    Digests(n) ::= allDefined:BYTE [BitVector(n) if allDefined == 0] CRC:UINT32 * (number of defined)"""
     cases = [(SB(s, p) != bv(6), ("none", p))]
     first = SB(s, p) == bv(6)
-    q = p + 1
-    pp = NUMV(s, q)
-    q = q + NUML(s, q)
-    q = q + NUML(s, q)            # numPackStreams (== P in this bounded case)
-    t0, q0 = SB(s, q), q + 1
+    q1 = p + 1
+    pp = NUMV(s, q1)
+    q2 = q1 + NUML(s, q1)
+    n = z3.BV2Int(NUMV(s, q2), False)
+    q3 = q2 + NUML(s, q2)
+    t0 = SB(s, q3)
     for has_size in (True, False):
         if has_size:
-            c1, sizes, qq = t0 == bv(9), [], q0
-            for _ in range(P):
-                sizes.append(NUMV(s, qq))
-                qq = qq + NUML(s, qq)
-            t1, q1 = SB(s, qq), qq + 1
+            c1 = t0 == bv(9)
+            size_at = (lambda j, q=q3 + 1: NUMV(s, NUMPOS(s, q, j)))
+            qs = NUMPOS(s, q3 + 1, n)
+            t1, q4 = SB(s, qs), qs + 1
         else:
-            c1, sizes, t1, q1 = t0 != bv(9), [], t0, q0
-        tails = [(t1 != bv(0x0A), t1, q1)] + [(z3.And(t1 == bv(0x0A), dc), SB(s, dq), dq + 1) for dc, dq in digests_spec(s, q1, P)]
-        for c2, t2, q2 in tails:
-            cases.append((z3.And(first, c1, c2, t2 == bv(0)), ("ok", pp, sizes, q2)))
-            cases.append((z3.And(first, c1, c2, t2 != bv(0)), ("bad", q2)))
+            c1, size_at, t1, q4 = t0 != bv(9), None, t0, q3 + 1
+        alld = SB(s, q4) != bv(0)
+        qc = q4 + 1 + z3.If(alld, 0, (n + 7) / 8) + 4 * DCNT(s, q4 + 1, alld, n)
+        for c2, t2, q5 in ((t1 != bv(0x0A), t1, q4), (t1 == bv(0x0A), SB(s, qc), qc + 1)):
+            cases.append((z3.And(first, c1, c2, t2 == bv(0)), ("ok", pp, n, size_at, q5)))
+            cases.append((z3.And(first, c1, c2, t2 != bv(0)), ("bad", q5)))
     return cases
+
+
+def numpos_mono_at(s, q, a, b):
+    """lemma: 0 <= a <= b => NUMPOS(s, q, a) <= NUMPOS(s, q, b)   (every NUMBER takes >= 1 byte; induction on b in lemmas())"""
+    return z3.Implies(z3.And(0 <= a, a <= b), NUMPOS(s, q, a) <= NUMPOS(s, q, b))
+
+
+def dcnt_mono_at(s, p, ad, a, b):
+    """lemma: 0 <= a <= b => 0 <= DCNT(a) <= DCNT(b)"""
+    return z3.Implies(z3.And(0 <= a, a <= b), z3.And(0 <= DCNT(s, p, ad, a), DCNT(s, p, ad, a) <= DCNT(s, p, ad, b)))
 
 
 def parser_contracts():
     out = []
-    PMAX = 3
-
     def S(c):
         return stream_of(c).t
 
-    def pk_cases(c):
-        P = c.entry.ghost.get("bounded_P")
-        return spec_pack_info(S(c), pos0(c), P)
+    # ---- _parse_pack_info: ANY number of pack streams (comprehension and digest loop carry invariants)
+    SZ_LABEL = "size-j-is-the-j-th-NUMBER-after-the-0x09-marker"
+    CRC_LABEL = "one-uint32-skipped-per-defined-digest"
+
+    def stream_v(st):
+        return st.obj(st.lookup("self").ref).data["_stream"]
+
+    def havoc_stream(ex, st):
+        common.havoc_pos(ex, st, stream_v(st))
+
+    def sz_inv(lc):
+        stream = stream_v(lc.entry)
+        s_, q0 = stream.t, common.bytesio_pos(lc.entry, stream)
+        i = lc.i
+        N = lc.seq.length
+        conj = [common.bytesio_pos(lc.st, stream) == NUMPOS(s_, q0, i)]
+        if lc.extra.get("phase") in ("init", "assume"):
+            lc.st.assume(numpos_def(s_, q0, i))                      # definition of NUMPOS at 0 and at this index
+        if lc.extra.get("phase") == "assume":
+            lc.st.assume(numpos_mono_at(s_, q0, i + 1, N))          # lemma numbers-end-monotone, at this index
+        if lc.extra.get("phase") == "preserve":
+            v = lc.extra.get("elt")
+            conj.append(ops.eq_term(v, VInt(NUMV(s_, NUMPOS(s_, q0, i - 1)))) if isinstance(v, VInt) else z3.BoolVal(False))
+        return z3.And(conj)
+
+    def sz_result(lc):
+        stream = stream_v(lc.entry)
+        s_, q0 = stream.t, common.bytesio_pos(lc.entry, stream)
+        return VSeq(lc.i, lambda j: VInt(NUMV(s_, NUMPOS(s_, q0, j))), "int", tag=("numbers", s_, q0))
+
+    def crc_inv(lc):
+        stream = stream_v(lc.entry)
+        s_, c0 = stream.t, common.bytesio_pos(lc.entry, stream)
+        tag = getattr(lc.seq, "tag", None)
+        if not (isinstance(tag, tuple) and tag and tag[0] == "bitvector"):
+            raise ops.Unsupported("_parse_pack_info: digest loop not over a BitVector")
+        _t, vp, alld = tag
+        i, N = lc.i, lc.seq.length
+        if lc.extra.get("phase") in ("init", "assume"):
+            lc.st.assume(dcnt_def(s_, vp, alld, i))                  # definition of DCNT at 0 and at this index
+        if lc.extra.get("phase") == "assume":
+            lc.st.assume(dcnt_mono_at(s_, vp, alld, i + 1, N))       # lemma digests-defined-monotone, at this index
+        return common.bytesio_pos(lc.st, stream) == c0 + 4 * DCNT(s_, vp, alld, i)
 
     def pk_post(c):
         res = c.result
-        goals = []
         d = c.st.obj(c.args["self"].ref).data
-        for cond, oc in pk_cases(c):
+        goals = []
+        for cond, oc in spec_pack_info(S(c), pos0(c)):
             if oc[0] == "none":
                 g = z3.And(z3.BoolVal(res is NONE), pos1(c) == oc[1])
             elif oc[0] == "bad":
                 g = z3.BoolVal(False)
             else:
-                _ok, pp, sizes, end = oc
+                _ok, pp, n, size_at, end = oc
                 g = z3.BoolVal(False)
                 if isinstance(res, VTuple) and len(res.items) == 2 and isinstance(res.items[0], VInt):
-                    lst = c.ex.concrete_items(c.st, res.items[1])
-                    pl = c.ex.concrete_items(c.st, d["_pack_positions"])
-                    ps = c.ex.concrete_items(c.st, d["_pack_sizes"])
-                    if lst is not None and len(lst) == len(sizes) and pl is not None and len(pl) == 1 and ps is not None and len(ps) == len(sizes):
-                        want_abs = VInt(z3.ZeroExt(8, pp) + z3.BitVecVal(32, 72))
-                        g = z3.And([ops.eq_term(res.items[0], want_abs), ops.eq_term(pl[0], want_abs), pos1(c) == end, end <= SLEN(S(c))] +
-                                   [ops.eq_term(a, VInt(b)) for a, b in zip(lst, sizes)] + [ops.eq_term(a, VInt(b)) for a, b in zip(ps, sizes)])
+                    lst, ps = res.items[1], d["_pack_sizes"]
+                    pl = c.ex.concrete_items(c.st, d["_pack_positions"]) if isinstance(d["_pack_positions"], VRef) else None
+                    want_abs = VInt(z3.ZeroExt(8, pp) + z3.BitVecVal(32, 72))
+                    j = z3.Int(fresh_name("j!sz"))
+
+                    def sizes_ok(v):
+                        if size_at is None:
+                            items = c.ex.concrete_items(c.st, v) if isinstance(v, VRef) else None
+                            return z3.BoolVal(items == [])
+                        if not isinstance(v, VSeq):
+                            return z3.BoolVal(False)
+                        return z3.And(v.length == n, z3.Implies(z3.And(j >= 0, j < n), ops.eq_term(v.elem(j), VInt(size_at(j)))))
+                    if pl is not None and len(pl) == 1:
+                        g = z3.And(ops.eq_term(res.items[0], want_abs), ops.eq_term(pl[0], want_abs), pos1(c) == end, end <= SLEN(S(c)),
+                                   sizes_ok(lst), sizes_ok(ps))
             goals.append(z3.Implies(cond, g))
         return z3.And(goals)
 
     def pk_raise(c):
         L = SLEN(S(c))
-        alts = []
-        for cond, oc in pk_cases(c):
+        alts = [pos0(c) + 1 > L]
+        for cond, oc in spec_pack_info(S(c), pos0(c)):
             if oc[0] == "bad":
                 alts.append(cond)
             elif oc[0] == "ok":
-                alts.append(z3.And(cond, oc[3] > L))
-        return z3.Or(alts + [pos0(c) + 1 > L])
+                alts.append(z3.And(cond, oc[4] > L))
+        return z3.Or(alts)
 
-    def case_P(P):
-        def cond(s, pos):
-            return z3.Implies(SB(s, pos) == bv(6), NUMV(s, pos + 1 + NUML(s, pos + 1)) == bv(P, 64))
-        return cond
-
-    def pk_bind(c):
-        # which bounded alternative is this?  (the maker's condition pins numPackStreams)
-        for P in range(PMAX + 1):
-            t = NUMV(S(c), pos0(c) + 1 + NUML(S(c), pos0(c) + 1))
-            if not c.ex.feasible(c.st.pc, z3.And(SB(S(c), pos0(c)) == bv(6), t != bv(P, 64))):
-                c.entry.ghost["bounded_P"] = P
-                c.st.ghost["bounded_P"] = P
-                break
-        return req_stream(c)
+    def pk_hyps(c):
+        """instances of the monotonicity lemmas at the section ends (proved by induction in lemmas())"""
+        s_, p = S(c), pos0(c)
+        q1 = p + 1
+        q2 = q1 + NUML(s_, q1)
+        n = z3.BV2Int(NUMV(s_, q2), False)
+        q3 = q2 + NUML(s_, q2)
+        hs = [numpos_mono_at(s_, q3 + 1, z3.IntVal(0), n), numpos_def(s_, q3 + 1, z3.IntVal(0))]
+        for q4 in (NUMPOS(s_, q3 + 1, n) + 1, q3 + 1):
+            hs.append(dcnt_mono_at(s_, q4 + 1, SB(s_, q4) != bv(0), z3.IntVal(0), n))
+            hs.append(dcnt_def(s_, q4 + 1, SB(s_, q4) != bv(0), z3.IntVal(0)))
+        return z3.And(hs)
 
     out.append(FnContract(
         target=f"{RD}._parse_pack_info",
-        params=[("self", p_reader_cases({"_header_offset": p_const(32), "_pack_positions": p_empty_list(), "_pack_sizes": p_empty_list()},
-                                        [case_P(P) for P in range(PMAX + 1)]))],
-        requires=pk_bind, modifies=("self",),
+        params=[("self", p_reader({"_header_offset": p_const(32), "_pack_positions": p_empty_list(), "_pack_sizes": p_empty_list()}))],
+        requires=req_stream, hyps=pk_hyps, modifies=("self",),
         ensures=[("result-fields-and-position-equal-the-PackInfo-grammar", pk_post)],
         raises=[Raises(BAD, when=pk_raise, label="bad end marker / short stream")],
-        bounded=f"numPackStreams in 0..{PMAX}; every byte of the stream symbolic (all NUMBER widths, with / without sizes, all digest layouts)",
-        note="PackInfo grammar of 7zFormat.txt; pack position made absolute by the 32-byte signature header"))
+        loops={("comp", 0): CompSpec(inv=sz_inv, result=sz_result, havoc=(havoc_stream,), label=SZ_LABEL),
+               0: LoopSpec(inv=crc_inv, havoc=(havoc_stream,), label=CRC_LABEL)},
+        note="PackInfo grammar of 7zFormat.txt for any numPackStreams; pack position made absolute by the 32-byte signature header"))
+
     # ---- _parse_substreams_info (BOUNDED shapes)
     SHAPES = [(), (1,), (2,), (1, 1), (2, 1), (1, 2)]
 
@@ -2215,9 +2473,44 @@ def lemmas():
     a, b = z3.Int("a!lemma"), z3.Int("b!lemma")
     out.append(("C10/spec::7z-layout/lemma#rank-monotone.base", [], rank_mono_at(a, z3.IntVal(0))))
     out.append(("C10/spec::7z-layout/lemma#rank-monotone.step", [b >= 0, rank_mono_at(a, b)], rank_mono_at(a, b + 1)))
+    sl, ql, pl, adl = z3.Const("s!lemma", Stream), z3.Int("q!lemma"), z3.Int("p!lemma"), z3.Bool("ad!lemma")
+    out.append(("C10/spec::7z-header/lemma#numbers-end-monotone.base", [numpos_def(sl, ql, b)], numpos_mono_at(sl, ql, a, z3.IntVal(0))))
+    out.append(("C10/spec::7z-header/lemma#numbers-end-monotone.step", [b >= 0, numpos_def(sl, ql, b), numpos_mono_at(sl, ql, a, b)],
+                numpos_mono_at(sl, ql, a, b + 1)))
+    out.append(("C10/spec::7z-header/lemma#digests-defined-monotone.base", [dcnt_def(sl, pl, adl, b)], dcnt_mono_at(sl, pl, adl, a, z3.IntVal(0))))
+    out.append(("C10/spec::7z-header/lemma#digests-defined-monotone.step", [b >= 0, dcnt_def(sl, pl, adl, b), dcnt_mono_at(sl, pl, adl, a, b), dcnt_mono_at(sl, pl, adl, b, b)],
+                dcnt_mono_at(sl, pl, adl, a, b + 1)))
     out.append(("C10/spec::7z-layout/lemma#pack-prefix-sum-nonneg.base", [], PS(z3.IntVal(0)) >= 0))
     out.append(("C10/spec::7z-layout/lemma#pack-prefix-sum-nonneg.step", [b >= 0, PS(b) >= 0, PSZ(b) > 0], PS(b + 1) >= 0))
     return out
+
+
+def native_scope(repo, tier):
+    """BOUNDED stand-in (DESIGN 2.8) for the functions that are not (or only boundedly) under contract -- _parse_header,
+    _parse_main_header, _parse_streams_info, _parse_files_info, SevenZipFile, lzma glue: the native differential scope of
+    replay/C10.py (reference writers x layouts x member sets: read_archive == direct extraction per member; SevenZipReader
+    lists / extracts every member's own bytes; byte readers == format spec) is run on the real code.  A mismatch is a concrete
+    failing input (violation); finding nothing proves nothing (`bounded-ok`, never counted as discharged)."""
+    import json
+    import os
+    import subprocess
+    oid = "C10/replay::native-scope/bounded#read_archive-equals-direct-extraction-per-member.BOUNDED"
+    req = {"property": "C10", "obligation": oid, "repo": repo}
+    try:
+        p = subprocess.run(["/venv/bin/python", os.path.join(os.path.dirname(os.path.dirname(os.path.abspath(__file__))), "replay", "run.py")],
+                           input=json.dumps(req), capture_output=True, text=True, timeout=900, env=dict(os.environ, VERIF_REPO=repo))
+        lines = [l for l in p.stdout.splitlines() if l.startswith("{")]
+        res = json.loads(lines[-1]) if lines else {"error": (p.stderr or p.stdout)[-500:]}
+    except Exception as e:  # noqa
+        res = {"error": str(e)}
+    if "error" in res or "crashed" in str(res.get("note", "")):
+        return {"obligations": [], "undecided": [{"obligation": oid, "why": "native scope could not run: " + str(res.get("error", res.get("note")))[:300]}]}
+    ok = not res.get("reproduced")
+    o = ground_obligation(oid, ok, "" if ok else f"{res.get('target')}: {json.dumps(res.get('inputs'), default=repr)[:300]} -> {str(res.get('observed'))[:300]}",
+                          "replay/C10.py", kind="bounded", backend="native-replay")
+    o["bounded"] = True
+    o["bound"] = "zipfile stored/deflated, tarfile plain/gz/bz2/xz in pax/gnu/ustar format, own 7z writer copy/LZMA/LZMA2 x solid / blocks / folder per file; 14 member sets (0..11 members, directories, zero-length, hidden, unsupported, nested, corrupt, non-ASCII names)"
+    return {"obligations": [o]}
 
 
 def known_findings(kf, violations, repo, tier):
@@ -2247,7 +2540,7 @@ def known_findings(kf, violations, repo, tier):
 
 EXECUTOR = MemberExecutor
 EXECUTOR_KW = {}
-EXTRA = [table_check]
+EXTRA = [table_check, native_scope]
 TRUSTED = [
     "decode (copy = identity, LZMA / LZMA2 via liblzma) is uninterpreted: _apply_decoder is an assumed contract; its results are "
     "compared natively by replay/C10.py for copy / LZMA / LZMA2 folders",
@@ -2281,7 +2574,10 @@ ASSUMPTIONS = [
     "the end-to-end statement (read_archive == direct extraction per member, in order) is the COMPOSITION of the layer contracts "
     "(a)-(f); the composition itself is argued in the pack's docstring, not discharged by the solver",
     "a ZIP/TAR/7z member above max_memory_size / MAX_ARCHIVE_FILE_SIZE is skipped (C12's limits); members are distinct names",
-    "_parse_files_info / _parse_header / _parse_main_header / _parse_streams_info are NOT under contract (native differential replay only)",
+    "_parse_files_info / _parse_header / _parse_main_header / _parse_streams_info are NOT under contract: their stand-in is the BOUNDED "
+    "native-scope obligation (replay/C10.py on the real code at every run)",
+    "NUMPOS / DCNT (positions after i NUMBERs, defined digests among the first i) are primitive-recursive spec functions used through "
+    "instances of their defining equations and two monotonicity lemmas proved by induction",
 ]
 BOUNDED = []
 QUICK_SKIP_BOUNDED = True   # the five BOUNDED header-parser enumerations (60-110 s each) run in the thorough tier only
